@@ -159,6 +159,11 @@ def make_replay(ob, rep, c, qualname, schema):
                 break
     if ob.kind in ("defined", "frame", "loop-step"):
         res["note"] = "obligation kind %s: the replay evaluates all selected ensures clauses and exception behaviour" % ob.kind
+    if ob.kind == "post" and res.get("verdict") == "violates" and str(res.get("detail", "")).startswith("real code raised") and res.get("raised") in ("TypeError", "AttributeError", "NameError"):
+        # the refuted obligation belongs to a symbolic path that RETURNS normally; a TypeError / AttributeError / NameError of the real code on the state rebuilt
+        # from the solver model means that the rebuilt state is not the state of that path (a ghost value the real code cannot use): no evidence either way
+        res["verdict"] = "inconclusive"
+        res["detail"] = "the real code raised %s on the state rebuilt from the solver model, the symbolic path returns normally: the rebuilt state does not represent the path (%s)" % (res.get("raised"), res.get("detail"))
     res["prestate"] = desc
     res["model_excerpt"] = str(ob.model)[:1500]
     return replay.jsonable(res)
